@@ -580,4 +580,140 @@ def r14_8(ctx: Ctx) -> RuleResult:
     return rr
 
 
-RULES = [r14_1, r14_2, r14_3, r14_4, r14_5, r14_6, r14_7, r14_8]
+def r14_9(ctx: Ctx) -> RuleResult:
+    """The pointer algebra on covering pointers, by abstract execution (rules/model.py) of the constructors, `__str__`,
+    `__eq__`, `__hash__`, `from_parts`, `parent`, `join`, `/` and `is_relative_to`: parsing and printing returns the
+    text; two pointers are equal - and hash alike - exactly when their reference tokens are equal as strings, whether
+    parsed from text or built from tokens given as str or as int; `from_parts` prints the RFC 6901 spelling, which
+    parses back to an equal pointer; a joined pointer has the pointer it was joined onto as parent and is relative to
+    it (and to no pointer that merely shares a text prefix); the parent of the root is the root."""
+    from sa.peval import UNKNOWN
+
+    from .model import RAISES
+    from .model import ClassModel
+    from .model import MObj
+    from .model import Model
+    from .model import _ConstructorRaises
+
+    P = "jsonpath.pointer.JSONPointer"
+    texts = ["", "/", "/a", "/a/0", "/a/1", "/a~1b", "/m~0n", "/~01", "//", "/a/ ", "/\u00e9", "/0", "/01", "/a/b/c", "/ab/c", "/a/0/", "/a/00",
+             # signed / padded / exponent look-alikes of an index are names; blanks inside and at the end of a token stay
+             "/-0", "/a/-0", "/+1", "/1e0", "/a/b ", "/a b/c"]
+    rr = RuleResult("R14.9", "parse/print, equality by tokens, from_parts, parent/join/relativity on covering pointers", floor=len(texts) * 4)
+    cls = ctx.repo.require_class(P)
+    eqf = ctx.repo.find_method(cls, "__eq__")
+    strf = ctx.repo.find_method(cls, "__str__")
+    if eqf is None or strf is None:
+        raise AnalysisError("R14.9: JSONPointer.__eq__ / __str__ not found")
+    model = Model(ctx, "R14.9")
+    model.whole_bodies = model.auto_construct = model.exact_exceptions = model.heap = True
+    cm = ClassModel(model, P, {})
+
+    def toks(t: str) -> List[str]:
+        return [] if t == "" else [x.replace("~1", "/").replace("~0", "~") for x in t[1:].split("/")]
+
+    def known(v: object, what: str) -> object:
+        if v is UNKNOWN:
+            raise AnalysisError(f"R14.9: {what} cannot be determined")
+        return v
+
+    built: Dict[str, List[Tuple[str, MObj]]] = {}
+    for t in texts:
+        variants: List[Tuple[str, MObj]] = []
+        for ue in (False, True):
+            try:
+                variants.append((f"JSONPointer({t!r}, unicode_escape={ue})", model.new(P, t, unicode_escape=ue)))
+            except _ConstructorRaises:
+                rr.bad(strf, strf.node, f"the RFC 6901 pointer {t!r} is refused ({model.last_raised})", construct=f"JSONPointer({t!r}) raises")
+        fp = model.call(cm, "from_parts", [toks(t)], {"unicode_escape": False})
+        if isinstance(fp, MObj):
+            variants.append((f"from_parts({toks(t)!r})", fp))
+        else:
+            rr.bad(strf, strf.node, f"from_parts({toks(t)!r}) " + ("raises" if fp is RAISES else "cannot be followed"), construct=f"from_parts({toks(t)!r})")
+        typed = [int(x) if re_index(x) else x for x in toks(t)]
+        if typed != toks(t):
+            fp2 = model.call(cm, "from_parts", [typed], {"unicode_escape": False})
+            if isinstance(fp2, MObj):
+                variants.append((f"from_parts({typed!r})", fp2))
+        built[t] = variants
+        for label, ptr in variants:
+            shown = known(model.call(ptr, "__str__", []), f"the text of {label}")
+            if shown == t:
+                rr.ok(strf.loc(), f"str({label}) == {t!r}")
+            else:
+                rr.bad(strf, strf.node, f"{label} prints as {shown!r}, not as {t!r}", construct=f"str({label}) == {shown!r}")
+    for i, t1 in enumerate(texts):
+        for t2 in texts[i:]:
+            same = toks(t1) == toks(t2)
+            for l1, p1 in built[t1]:
+                for l2, p2 in built[t2]:
+                    if p1 is p2:
+                        continue
+                    got = known(model.call(p1, "__eq__", [p2]), f"{l1} == {l2}")
+                    if got is not same:
+                        rr.bad(eqf, eqf.node, f"{l1} == {l2} is {got!r}; their reference tokens are {'the same' if same else 'different'} ({toks(t1)} / {toks(t2)})",
+                               construct=f"{l1} == {l2} -> {got!r}")
+                    elif same:
+                        h1, h2 = known(model.call(p1, "__hash__", []), f"hash of {l1}"), known(model.call(p2, "__hash__", []), f"hash of {l2}")
+                        if h1 != h2:
+                            rr.bad(eqf, eqf.node, f"{l1} and {l2} are equal but hash differently", construct=f"hash({l1}) != hash({l2})")
+            rr.ok(eqf.loc(), f"{t1!r} vs {t2!r}: {'equal' if same else 'different'} in every construction")
+    # navigation
+    for t in texts:
+        base = built[t][0][1] if built[t] else None
+        if base is None:
+            continue
+        for part in ("x", "b~1c", "~0", "0", "", "p/q", "-0", "b ", "01"):
+            joined = model.call(base, "join", [part])
+            slashed = model.call(base, "__truediv__", [part])
+            if not isinstance(joined, MObj) or not isinstance(slashed, MObj):
+                raise AnalysisError(f"R14.9: joining {part!r} onto {t!r} cannot be followed")
+            if known(model.call(joined, "__eq__", [slashed]), "join == /") is not True:
+                rr.bad(eqf, eqf.node, f"JSONPointer({t!r}).join({part!r}) and JSONPointer({t!r}) / {part!r} differ", construct=f"join vs / for {t!r}, {part!r}")
+                continue
+            want_text = t + "".join("/" + x for x in part.split("/"))
+            if known(model.call(joined, "__str__", []), "text of a join") != want_text:
+                rr.bad(eqf, eqf.node, f"JSONPointer({t!r}).join({part!r}) prints as {model.call(joined, '__str__', [])!r}, not as {want_text!r}", construct=f"text of join({t!r}, {part!r})")
+                continue
+            cur: object = joined
+            for _ in range(part.count("/") + 1):
+                cur = model.call(cur, "parent", []) if isinstance(cur, MObj) else UNKNOWN
+            if not isinstance(cur, MObj) or known(model.call(cur, "__eq__", [base]), "parent == base") is not True:
+                rr.bad(eqf, eqf.node, f"the parent of JSONPointer({t!r}).join({part!r}) is not JSONPointer({t!r})", construct=f"parent(join({t!r}, {part!r}))")
+            elif known(model.call(joined, "is_relative_to", [base]), "relativity") is not True:
+                rr.bad(eqf, eqf.node, f"JSONPointer({t!r}).join({part!r}) is not relative to JSONPointer({t!r})", construct=f"is_relative_to after join({t!r}, {part!r})")
+            else:
+                rr.ok(eqf.loc(), f"{t!r} joined with {part!r}: parent and relativity hold, / agrees")
+        # several parts: each is joined in turn, and each may replace what came before
+        for parts_m, want_m in ((("a", "b"), t + "/a/b"), (("a", "/b"), "/b"), (("", "a"), t + "//a"), (("/x", "y", "/z", "w"), "/z/w"), (("a~1", "~0b"), t + "/a~1/~0b")):
+            jm = model.call(base, "join", list(parts_m))
+            if not isinstance(jm, MObj):
+                rr.bad(eqf, eqf.node, f"JSONPointer({t!r}).join{parts_m!r} " + ("raises" if jm is RAISES else "cannot be followed"), construct=f"join{parts_m!r} onto {t!r}")
+            elif known(model.call(jm, "__str__", []), "text of a join of several parts") != want_m:
+                rr.bad(eqf, eqf.node, f"JSONPointer({t!r}).join{parts_m!r} is {model.call(jm, '__str__', [])!r}; joining the parts one after the other gives {want_m!r}",
+                       construct=f"join{parts_m!r} onto {t!r}")
+            else:
+                rr.ok(eqf.loc(), f"{t!r}.join{parts_m!r} -> {want_m!r}")
+        absolute = model.call(base, "join", ["/z/9"])
+        if not isinstance(absolute, MObj) or known(model.call(absolute, "__str__", []), "text of an absolute join") != "/z/9":
+            rr.bad(eqf, eqf.node, f"JSONPointer({t!r}).join('/z/9') is not the pointer /z/9: a part that starts with a slash replaces the pointer", construct=f"absolute join onto {t!r}")
+    root = built[""][0][1]
+    rp = model.call(root, "parent", [])
+    if not isinstance(rp, MObj) or known(model.call(rp, "__eq__", [root]), "parent of the root") is not True:
+        rr.bad(eqf, eqf.node, "the parent of the root pointer is not the root pointer", construct="parent of the root")
+    for t1, t2, want in (("/ab/c", "/a", False), ("/a/0", "/a", True), ("/a", "/a", False), ("/a/00", "/a/0", False), ("/a/0/", "/a/0", True), ("/a", "", True), ("/a~1b", "/a", False)):
+        got = known(model.call(built[t1][0][1], "is_relative_to", [built[t2][0][1]]), f"relativity of {t1!r} to {t2!r}")
+        if got is want:
+            rr.ok(eqf.loc(), f"{t1!r} relative to {t2!r}: {want}")
+        else:
+            rr.bad(eqf, eqf.node, f"JSONPointer({t1!r}).is_relative_to(JSONPointer({t2!r})) is {got!r}; by tokens it is {want}", construct=f"is_relative_to({t1!r}, {t2!r})")
+    return rr
+
+
+def re_index(tok: str) -> bool:
+    import re as _re
+
+    return _re.fullmatch(r"0|[1-9][0-9]*", tok) is not None
+
+
+RULES = [r14_1, r14_2, r14_3, r14_4, r14_5, r14_6, r14_7, r14_8, r14_9]
